@@ -540,6 +540,7 @@ namespace vf_stack
 
         void do_move_construct(unit& u)
         {
+            also_scope moved("C12", "C01 C05 C15");
             op("move-construct");
             placed<S> n;
             auto      leaks0 = hl().leaks.size();
@@ -556,6 +557,7 @@ namespace vf_stack
         }
         void do_move_assign(unit& u)
         {
+            also_scope moved("C12", "C01 C05 C15");
             bool used = r.chance(60);
             op("move-assign onto %s target", used ? "used" : "fresh");
             auto t = fresh(placement::heap);
@@ -605,6 +607,7 @@ namespace vf_stack
         }
         void do_swap(unit& a, unit& b)
         {
+            also_scope moved("C12", "C01 C05 C15");
             op("swap");
             using std::swap;
             swap(*a.obj, *b.obj);
@@ -629,8 +632,13 @@ namespace vf_stack
             u->sh.sweep();
             op("destroy net=%td", u->net);
             hl().leaks.clear();
+            auto inv0 = hl().invalid;
             u->obj.destroy();
+            if (hl().invalid != inv0)
+                viol_nothrow("C16", key("C16", "false-invalid-pointer-report"),
+                             "the invalid-pointer handler was called while a stack with a valid history was destroyed");
             u->src->check();
+            frg.check("destruction");
 #if FOONATHAN_MEMORY_DEBUG_LEAK_CHECK
             if (u->net == 0 && !hl().leaks.empty())
                 viol("C15", key("C15", "reported-although-balanced"), "leak handler called with %td although everything was deallocated", hl().leaks[0]);
@@ -901,8 +909,39 @@ namespace vf_stack
             frg.check("next_iteration");
         }
 
+        // c = move(a) keeps the memory; then a (moved-from) is assigned a fresh allocator: nothing of c's may be touched
+        void do_reuse_moved_from()
+        {
+            also_scope moved("C12", "C01 C05");
+            op("move-construct, then assign a fresh allocator onto the moved-from object");
+            placed<A> c;
+            c.obj = ::new (c.storage()) A(std::move(*obj));
+            auto      bsrc = std::make_shared<Src>();
+            keep.push_back(bsrc);
+            {
+                placed<A> b;
+                b.obj = bsrc->template construct<A>(b.storage(), bsrc->fix_block_size(r.range(64, 1024)));
+                *obj  = std::move(*b.obj); // obj is moved-from: it owns nothing that could be released
+                src->check();
+                bsrc->check();
+            }
+            // the moved-to allocator goes on as the allocator under test; the re-filled old object is destroyed
+            sh.sweep();
+            obj.destroy();
+            bsrc->check();
+            if (!bsrc->balanced())
+                viol("C12", key("C12", "assigned-moved-from-leaks"), "the allocator assigned onto a moved-from object did not return its block when destroyed");
+            obj = std::move(c);
+            src->check();
+            sh.sweep();
+            flag("move");
+            count("moves");
+            frg.check("reuse of a moved-from allocator");
+        }
+
         void do_move(bool assign)
         {
+            also_scope moved("C12", "C01 C05");
             op(assign ? "move-assign" : "move-construct");
             if (!assign)
             {
@@ -997,10 +1036,12 @@ namespace vf_stack
                     do_alloc(true);
                 else if (x < 94)
                     do_next();
-                else if (x < 97)
+                else if (x < 96)
                     do_move(false);
-                else
+                else if (x < 98)
                     do_move(true);
+                else
+                    do_reuse_moved_from();
                 if (cx().step % 16 == 0)
                 {
                     sh.sweep();
